@@ -866,4 +866,78 @@ theorem step_sound {p : Pool} (hi : Inv p) (op : Op) (hwf : op.wf) (hok : ByteLo
     simp only [Op.toSpec, ByteLog.step, hb]
     exact (append_nil_set hb).symm
 
+theorem observe_spec {p : Pool} {o : Nat} {s : Obj} (hi : Inv p) (ho : p.objs o = some s) {b : List Nat} (hb : abs p o = some b) :
+    observe o p = .ok { size := b.length, bytes := b, ptr := s.chars } p := by
+  have hsz := hi.sizeLe ho
+  obtain ⟨b', hb', hbl⟩ := abs_some hi ho
+  rw [hb] at hb'; cases hb'
+  cases hi.mode ho with
+  | stack ha hc =>
+    rw [abs_stack ho hc] at hb; cases hb
+    have hr : readUnits s.chars s.size p = .ok (s.stack.take s.size) p := by
+      rw [hc]; exact readUnits_stack _ ho (by have := hi.stackLen ho; omega)
+    simp only [observe, bind_apply, getObj_eq ho, hr, pure_apply, hbl]
+  | heap k blk ha hc hk hl =>
+    rw [abs_heap ho hc hk] at hb; cases hb
+    have hr : readUnits s.chars s.size p = .ok (blk.take s.size) p := by
+      rw [hc]; exact readUnits_heap _ hk (by omega)
+    simp only [observe, bind_apply, getObj_eq ho, hr, pure_apply, hbl]
+
+theorem inv_init : Inv Pool.init where
+  obj := by intro o s h; cases h
+  uniq := by intro o₁ o₂ s₁ s₂ k h; cases h
+  owned := by intro k blk h; cases h
+  fresh := by intro k _; rfl
+
+theorem abs_init : abs Pool.init = ByteLog.State.init := rfl
+
+/-- histories: from any pool satisfying the invariant with no fault schedule armed -/
+theorem run_sound : ∀ (ops : List Op) (p : Pool), Inv p → p.failAt = none → HistOk (abs p) ops →
+    ∃ p', runOps .repaired ops p = .ok () p' ∧ Inv p' ∧ abs p' = ByteLog.run (abs p) (ops.map Op.toSpec) ∧ p'.failAt = none := by
+  intro ops
+  induction ops with
+  | nil => intro p hi hf _; exact ⟨p, rfl, hi, rfl, hf⟩
+  | cons op rest ih =>
+    intro p hi hf hh
+    obtain ⟨hwf, hok, hrest⟩ := hh
+    rcases step_sound hi op hwf hok with ⟨p1, h1, hi1, ha1, hf1⟩ | ⟨p1, h1, hi1, ha1, hs1, hf1⟩ | ⟨p1, h1, _, hne, _⟩
+    · obtain ⟨p2, h2, hi2, ha2, hf2⟩ := ih p1 hi1 (hf1.trans hf) (by rw [ha1]; exact hrest)
+      exact ⟨p2, by simp only [runOps, h1, h2], hi2, by rw [ha2, ha1]; rfl, hf2⟩
+    · obtain ⟨p2, h2, hi2, ha2, hf2⟩ := ih p1 hi1 (hf1.trans hf) (by rw [ha1]; rw [hs1] at hrest; exact hrest)
+      refine ⟨p2, by simp only [runOps, h1, h2], hi2, ?_, hf2⟩
+      show abs p2 = ByteLog.run (ByteLog.step (abs p) op.toSpec) (rest.map Op.toSpec)
+      rw [hs1, ha2, ha1]
+    · exact absurd hf hne
+
+theorem destroyAll_spec : ∀ (ids : List Nat) (p : Pool), Inv p →
+    ∃ p', destroyAll ids p = .ok () p' ∧ Inv p' ∧ (∀ o, o ∈ ids → p'.objs o = none) ∧ (∀ o, p.objs o = none → p'.objs o = none) := by
+  intro ids
+  induction ids with
+  | nil => intro p hi; exact ⟨p, rfl, hi, (by intro o h; cases h), fun _ h => h⟩
+  | cons o rest ih =>
+    intro p hi
+    cases ho : p.objs o with
+    | none =>
+      obtain ⟨p', h1, h2, h3, h4⟩ := ih p hi
+      refine ⟨p', by simp [destroyAll, ho, h1], h2, ?_, h4⟩
+      intro x hx
+      rcases List.mem_cons.mp hx with h | h
+      · subst h; exact h4 _ ho
+      · exact h3 x h
+    | some s =>
+      obtain ⟨p1, h1, hi1, ha1, _⟩ := dtor_spec hi ho
+      obtain ⟨p', h2, hi2, h3, h4⟩ := ih p1 hi1
+      have hdead : ∀ x, abs p1 x = none → p1.objs x = none := fun x h => abs_dead.mp h
+      refine ⟨p', by simp [destroyAll, ho, h1, h2], hi2, ?_, ?_⟩
+      · intro x hx
+        rcases List.mem_cons.mp hx with h | h
+        · subst h; exact h4 _ (hdead _ (by rw [ha1]; simp [ByteLog.State.set]))
+        · exact h3 x h
+      · intro x hx
+        apply h4
+        apply hdead
+        rw [ha1]; simp only [ByteLog.State.set]; split
+        · rfl
+        · exact abs_dead.mpr hx
+
 end StVerif.Stream
